@@ -1876,7 +1876,7 @@ func (p *CodeBuilder) BinaryOp(op token.Token, src ...ast.Node) *CodeBuilder {
 		}
 	}
 	if err != nil && !isUserDef {
-		if op == token.QUO {
+		if op == token.QUO || op == token.REM {
 			checkDivisionByZero(p, args[0], args[1])
 		}
 		if op == token.EQL || op == token.NEQ {
